@@ -303,4 +303,51 @@ theorem runFuel_sim (cH : Context Slice) (cv : Context Bytes) (n : Nat) (m : Mac
         obtain ⟨rfl, rfl, rfl⟩ := h
         exact ⟨p1, v1⟩
 
+/-! ### `Verify` -/
+
+/-- the initial pushes allocate nothing and commute with the abstraction -/
+theorem pushAll_sim (alt : Bool) (xs : List Slice) (s : St Heap Slice)
+    (hv : FrameValid s.mem s.f) (hxs : ∀ x ∈ xs, Valid s.mem x) :
+    ResPP (fun _ s' => pushAll (if alt then pushAlt valueMem else fun x => pushItem valueMem x false)
+                (xs.map s.mem.read) (absSt s) = .ok () (absSt s') ∧ s'.mem = s.mem ∧ FrameValid s'.mem s'.f)
+          (fun e s' => pushAll (if alt then pushAlt valueMem else fun x => pushItem valueMem x false)
+                (xs.map s.mem.read) (absSt s) = .err e (absSt s') ∧ s'.mem = s.mem ∧ FrameValid s'.mem s'.f)
+          False
+          (pushAll (if alt then pushAlt (heapMem g) else fun x => pushItem (heapMem g) x false) xs s) := by
+  induction xs generalizing s with
+  | nil => simp [pushAll, hv]
+  | cons x xs ih =>
+    have hx : Valid s.mem x := hxs x (by simp)
+    have hxl : (s.mem.read x).length = x.len := hx
+    obtain ⟨h, ⟨prog, pc, nextPC, rl, d, data, alts, depth, er⟩⟩ := s
+    obtain ⟨hv1, hv2, hv3⟩ := hv
+    dsimp only at hv1 hv2 hv3 hx hxl hxs
+    simp only [pushAll, List.map_cons, bind_run]
+    cases alt with
+    | true =>
+      simp only [if_true, pushAlt, bind_run, applyCost_run, itemCost, heapMem, valueMem, absSt, absFrame, hxl]
+      by_cases hc : 8 + (x.len : Int) > rl
+      · simp [hc, absSt, absFrame, FrameValid, hv1]; exact ⟨hv2, hv3⟩
+      · simp only [hc, if_false, Res.bindK_ok, modifyF_run]
+        have := ih ⟨h, ⟨prog, pc, nextPC, rl - (8 + (x.len : Int)), d, data, x :: alts, depth, er⟩⟩
+          ⟨hv1, hv2, fun y hy => by
+            rcases List.mem_cons.mp hy with rfl | hy
+            · exact hx
+            · exact hv3 y hy⟩ (fun y hy => hxs y (by simp [hy]))
+        simpa [absSt, absFrame, pushAlt, heapMem, valueMem] using this
+    | false =>
+      simp only [Bool.false_eq_true, if_false, pushItem_imm, itemCost, heapMem, valueMem, absSt, absFrame, hxl]
+      by_cases hc : 8 + (x.len : Int) > rl
+      · simp [hc, absSt, absFrame, FrameValid, hv1]; exact ⟨hv2, hv3⟩
+      · simp only [hc, if_false, Res.bindK_ok]
+        have := ih ⟨h, ⟨prog, pc, nextPC, rl - (8 + (x.len : Int)), d, x :: data, alts, depth, er⟩⟩
+          ⟨hv1, fun y hy => by
+            rcases List.mem_cons.mp hy with rfl | hy
+            · exact hx
+            · exact hv2 y hy, hv3⟩ (fun y hy => hxs y (by simp [hy]))
+        simpa [absSt, absFrame, heapMem, valueMem] using this
+
+def absResult (r : VerifyResult Heap Slice) : VerifyResult Unit Bytes :=
+  ⟨r.gasLeft, r.err, r.final.map fun p => ((), absFrame p.1 p.2)⟩
+
 end BytomModel.VM
